@@ -268,6 +268,31 @@ def run(F, rep, tier):
                 else:
                     rep.viol('R12.4', 'eval::evaluate|Switch|shape', 'switch arm loop shape changed (with_parent on cycle=%s, rev=%s, assign=%s, error=%s)'
                              % ([eb.on_cycle(c.bb) for c in wp], bool(rev), bool(asg), bool(errs)), eb.loc(min(reg_)) if reg_ else None)
+            if nm == 'Switch':
+                # first match commits: once an arm's body has been entered, the switch never moves on to a later arm
+                reg_ = arm_region(F, eb, me, i)
+                cs = eb.calls_in(reg_)
+                heads = [c for c in cs if c.target.endswith('::next') and eb.on_cycle(c.bb) and 'slice::Iter' in c.target]
+                body_evals = []
+                for c in cs:
+                    if c.target == 'eval::evaluate' and len(c.args) > 1:
+                        og = origins(eb, c.args[1], passthru=('deref', 'as_ref', 'borrow'))
+                        if any(o[0] == 'call' and o[1].endswith('::next') for o in og):
+                            body_evals.append(c)
+                # closures created in the arm that evaluate something: the call they are handed to stands for the evaluation
+                for bb, s_ in eb.aggregates(reg_):
+                    if s_[2][1] == 'closure' and F.has_fn(s_[2][2]) and any(c2.target == 'eval::evaluate' for c2 in F.body(s_[2][2]).calls):
+                        L = s_[1][0]
+                        for c in cs:
+                            if any(a_[0] in ('m', 'c') and a_[1] and a_[1][0] == L for a_ in c.args) and not c.target.endswith('add_trace'):
+                                body_evals.append(c)
+                back = [c for c in body_evals for h in heads if h.bb in eb.reachable_from(c.bb)]
+                if heads and body_evals and not back:
+                    rep.ok('R12.4', 'Switch commits to the first matching arm', '%d body evaluation site(s), none can return to the arm loop' % len(body_evals))
+                elif back:
+                    rep.viol('R12.4', 'eval::evaluate|Switch|fallthrough', 'after the body of a matching switch arm has run, control can return to the arm loop: an error thrown inside the body is treated as a pattern mismatch and a later arm runs', back[0].loc())
+                else:
+                    rep.error('R12.4', 'Switch: arm loop or body evaluation not found (%d heads, %d evaluations)' % (len(heads), len(body_evals)))
             if nm == 'Try':
                 reg_ = arm_region(F, eb, me, i)
                 cs = eb.calls_in(reg_)
